@@ -2,7 +2,7 @@
 # Runs every behaviour-preserving whole-package transformation of tools/rename_test.py and demands 20 x exit 0 for each (development tool).
 cd "$(dirname "$0")/.."
 bad=0
-for m in rename commute kwcalls inline npalias extract unelse negif negcmp strip npaxis npaxiskw defsort swapindep kwperm trimslice splittuple; do
+for m in rename nested jointuple commute kwcalls inline npalias extract unelse negif negcmp strip npaxis npaxiskw defsort swapindep kwperm trimslice splittuple; do
   out=$(tools/rename_test.py --mode $m "$@" 2>&1 | tail -1)
   echo "$m: $out"
   case "$out" in *"0 false alarms, 0 undecided"*) ;; *) bad=1;; esac
